@@ -62,6 +62,10 @@ def effective_sources(frags):
     seen_any = False
     for f in frags:
         s = f[4]
+        if f[0] == '':
+            # nothing is written for an empty fragment and sourcemap.write does not look at it
+            out.append(prev if seen_any else INVALID)
+            continue
         if s is None:
             eff = prev if seen_any else INVALID
         elif s is NotImplemented:
@@ -147,7 +151,7 @@ def check_stream(acc, opens, case, frags, normalize, judge_source=True):
 
 SRC_CHOICES = [None, None, 'a.js', 'lib/b.js', '/abs/c.js', NotImplemented]
 TEXTS = ['a', 'foo', ';', '{', '}', ' ', '  ', '\n', '\r\n', '\r', 'x\n', 'x\ny', '"a\\\nb"', '/*c\n d*/', ',', '(',
-         ')', 'var', 'function', '\n  ', 'a\r\nb\rc']
+         ')', 'var', 'function', '\n  ', 'a\r\nb\rc', '']
 
 
 @st.composite
@@ -160,6 +164,9 @@ def synthetic(draw):
         text = draw(st.sampled_from(TEXTS))
         kind = draw(st.sampled_from(['none', 'implied', 'explicit', 'explicit', 'explicit']))
         source = draw(st.sampled_from(SRC_CHOICES))
+        if text == '' and not have_explicit_source:
+            frags.append((text, None, None, None, None))
+            continue
         if not have_explicit_source and kind != 'none':
             # well-formed: the first positioned fragment names its source
             kind = 'explicit'
